@@ -118,6 +118,12 @@ func (w *writer) ser(out *bytes.Buffer, o any, base int, rec bool) {
 		out.Write(serName(string(v)))
 	case Str:
 		out.Write(serString(v))
+	case NRef:
+		s := fmt.Sprintf("%d %d R", v.Num, v.Gen)
+		if rec {
+			w.mark(at(), len(s), "ref")
+		}
+		out.WriteString(s)
 	case Ref:
 		n, ok := w.nb.num[string(v)]
 		if !ok {
